@@ -365,7 +365,7 @@ func (vc *VC) execInstr(f *Frame, n *Node, in ssa.Instruction) {
 		f.setVal(in, n, &SV{T: in.Type(), C: []string{ref, bvLit(64, 0), l64, c64}, NonNil: true})
 	case *ssa.MakeMap:
 		ref := vc.allocRaw(st, in.Name())
-		vc.mapInit(st, ref)
+		vc.mapInit(st, ref, in.Type())
 		f.setVal(in, n, &SV{T: in.Type(), C: []string{ref, bvLit(64, 0)}, NonNil: true})
 	case *ssa.MapUpdate:
 		vc.mapUpdate(f, n, in)
